@@ -45,6 +45,8 @@ CASES = {
     "C12": {
         "late-skip": ("'. =' skip evaluated late", ok("\t. = 1000\n\t. = . + n\n\tnop\nn = 4\n", "00000000" + w(0o240), base=0o1000)),
         "cancel-through-symbol": ("base through a forward difference symbol", ok("d = lab - lab\n\t. = 2000 + d\nlab:\tnop\n", w(0o240), base=0o2000)),
+        "negative-skip-target": ("'. = . - 4' right behind '.link 0': the negative target wrapped to 177776 and 64K of zeros were written (reported by a sub-agent while seeding)", err("\t.link 0\n\tnop\n\t. = . - 4\n\tnop\n", ["value-out-of-bounds"])),
+        "gap-between-base-labels": ("a '. =' gap between the labels of a cancelling base was reported as a self-dependent base (reported by a sub-agent while seeding)", ok("\t.link 2000 + e - s\ns:\tnop\n\t. = . + size\ne:\tnop\nsize = 4\n", w(0o240, 0, 0, 0o240), base=0o2006)),
         "cancel-through-aliases": ("alias symbols and a label of another file", {"kind": "expect", "tree": {"a.mac": "pb = ma\npa = mb\n\t.link 2000 + (pa - pb)\nma::\n\t.word ma, .\n", "b.mac": "mb::\n\tnop\n"},
                                    "mains": ["a.mac", "b.mac"], "charset": "bk", "expect": {"kind": "ok", "base": 0o2004, "code": w(0o2004, 0o2004, 0o240)}}),
     },
